@@ -129,7 +129,9 @@ class SGen:
             if with_empty and not any(k == "empty" for _, k in row) and r.random() < 0.5:
                 row.insert(r.randrange(len(row) + 1), ("", "empty"))
             items += row
-            data_lines.append("DATA " + ",".join(t for t, _ in row))
+            # a DATA list ends at the colon: statements may follow it on the same line
+            tail = r.choice(["", "", "", ":PRINT \"AFTER\"", ":Q7=1:PRINT Q7"])
+            data_lines.append("DATA " + ",".join(t for t, _ in row) + tail)
         order = r.randrange(3)          # DATA before, after, or around the READs
         if order == 0:
             for d in data_lines:
@@ -267,6 +269,8 @@ PROBES = [
     '10 READ A,B$\n20 DATA 5\n30 PRINT A;B$\n40 DATA TAIL',
     '10 DATA ,\n20 READ A$,B:PRINT A$;B',
     '10 DATA 12\n20 READ A$:PRINT A$',
+    '10 DATA RED,GREEN:READ A$,B$:PRINT A$;B$\n20 PRINT "NEXT LINE"',
+    '10 DATA 1,TWO WORDS:PRINT "X"\n20 READ A,B$:PRINT A;B$',
     '10 READ R(1):PRINT R(1)\n20 DATA 5',
     '10 READ R(1)\n20 DATA 5',
     '10 INPUT R$(2)',
